@@ -187,6 +187,9 @@ mod return_;
 mod serialize;
 mod stream;
 
+#[cfg(amiquip_verif)]
+pub mod verif;
+
 pub use auth::{Auth, Sasl};
 pub use channel::Channel;
 pub use confirm::{Confirm, ConfirmPayload, ConfirmSmoother};
